@@ -321,7 +321,7 @@ PROPS = {
         contracts=[], falsifier='C10', modes=['py', 'c'], level='other', differential=True,
         cfunctions=['_subcache', '_getcache', '_lookup', '_lookup1', '_adapter_hook', '_lookupAll', '_subscriptions', 'IB__adapt__', 'SB_extends', 'SB_providedBy', 'SB_implementedBy'],
         creturns={'_subcache': 'borrowed', '_getcache': 'borrowed'},
-        level_text='Bounded differential check: five generated API programs (17.7k steps: specification queries, comparison and hashing, '
+        level_text='Bounded differential check: six generated API programs (about 18k steps: registry chains 3-4 deep of both flavours with a mutation at every level and warm leaf caches, specification queries, comparison and hashing, '
                    'declaration queries, adaptation calls, registry lookups incl. cached answers) over a pool of 33 odd argument values '
                    'are executed under both implementations and the traces (value shapes and exception types) compared; in addition '
                    'the bounded checks of C01-C09, C12-C14, C19 run under both implementations against one executable contract each. '
